@@ -368,6 +368,7 @@ def run(ctx):
     flags_rule(ctx, syn)
     iri_rule(ctx, syn)
     setlocal_rule(ctx)
+    template_rule(ctx, syn)
     valueverbatim_rule(ctx, syn)
 
     # ---------------- SEP (separator / bracket typestate on the string accumulators)
@@ -812,3 +813,50 @@ def setlocal_rule(ctx, rid="C17.SETLOCAL", files=("src/api/webanno.rs",)):
         for ty in bad:
             ctx.report(r, "%s|%s" % (mirq.short_fn(bid), ty), "%s keeps a `%s..>`: the handle is only unique within one dataset, and an annotation can carry data of several sets - entries of different sets with the same handle number are taken for one another (a value exported under the key of another set)" % (bid, ty), b.file, b.line)
     ctx.floor(r, n, 8, "bodies of the exporter")
+
+
+
+# ---------------------------------------------------------------------- TEMPLATE
+def template_rule(ctx, syn, rid="C17.TEMPLATE"):
+    """placeholders of a template are filled in one after the other with str::replace.  A replacement that is free
+    text (an identifier, an IRI) may itself contain the text of a later placeholder, so it has to be the last one to go
+    in; the replacements before it must be numbers.  Decided on the order of the replace() calls on one string in the
+    exporter's functions."""
+    r = ctx.rule(rid, "when placeholders are substituted one after the other, a free-text replacement (an IRI, an id) is the last substitution into that string: whatever it contains is not substituted again")
+    n = 0
+
+    TEXTY = ("id", "iri", "as_str", "to_str", "filename", "text", "name", "temp_id")
+
+    def free_text(e, lets, depth=0):
+        """the replacement is known to be free text: it is computed from an identifier / IRI / name (directly, or
+        through a local whose initialiser is)"""
+        for nd in walk(e):
+            if nd.get("k") == "mcall" and nd.get("method") in TEXTY:
+                return True
+            if nd.get("k") == "call" and nd["func"].get("k") == "path" and nd["func"]["path"][-1] in ("into_iri", "json_escape", "uri_to_namespace"):
+                return True
+            if nd.get("k") == "path" and len(nd.get("path", [])) == 1 and nd["path"][0] in lets and depth < 2:
+                if free_text(lets[nd["path"][0]], lets, depth + 1):
+                    return True
+        return False
+    for f in syn.fns:
+        if f.file != "src/api/webanno.rs" or f.body is None:
+            continue
+        chains = {}
+        lets = {}
+        for nd in walk(f.body):
+            if nd.get("k") == "let" and nd.get("init") is not None and (nd.get("pat") or {}).get("name"):
+                lets[nd["pat"]["name"]] = nd["init"]
+        for nd in walk(f.body):
+            if nd.get("k") == "mcall" and nd.get("method") == "replace" and len(nd.get("args") or []) == 2 and nd["args"][0].get("k") == "lit" and re.match(r"^\{\w+\}$", str(nd["args"][0].get("v"))):
+                chains.setdefault(unparse(nd["recv"]), []).append(nd)
+        for var, calls in chains.items():
+            calls.sort(key=lambda c: (c.get("l") or 0, c.get("c") or 0))
+            n += len(calls)
+            ctx.functions_analysed.add(f.qual)
+            r.hit("%s:%s" % (f.qual, var), sample={"function": f.qual, "string": var, "placeholders": [c["args"][0]["v"] for c in calls]})
+            for i, c in enumerate(calls[:-1]):
+                if free_text(c["args"][1], lets):
+                    ctx.report(r, "%s|%s" % (f.name, c["args"][0]["v"]), "%s substitutes %s with free text (`%s`) and goes on to substitute %s in the same string: a %s that contains the text of a later placeholder is rewritten (an exported target that names another resource)" % (f.qual, c["args"][0]["v"], unparse(c["args"][1])[:60], ", ".join(x["args"][0]["v"] for x in calls[i + 1:]), c["args"][0]["v"].strip("{}")), f.file, c.get("l"))
+                    break
+    ctx.floor(r, n, 3, "placeholder substitutions in the exporter")
